@@ -313,50 +313,126 @@ def original(case, rd):
     return [("original", c, w) for c, w in compare(case, ints, [[n] for n in range(1, len(ints) + 1)], False)]
 
 
-def replay(case, rd):
-    """-> [] or [(where, clause, what)..] for the first step whose output differs"""
-    from coba.pipes import Pipes
-    from coba.environments import Environments
-    from coba.primitives import Environment
-    bad = original(case, rd)
-    if bad: return bad
+def norm_val(v):
+    """a value as plain data (for 'the re-read equals the first read')"""
+    import collections.abc
+    from coba.primitives import Categorical
+    if isinstance(v, Categorical): return ("cat", str(v))
+    if v is None or isinstance(v, (str, int, float)): return v
+    if callable(v): return "<callable>"          # reward objects are compared through the rewards they give (observe)
+    if hasattr(v, "items"): return {k: norm_val(x) for k, x in v.items()}
+    if hasattr(v, "__iter__"): return [norm_val(x) for x in v]
+    return repr(v)
+
+
+def same_output(a, b):
+    """is the second read of an input the same as the first: same items, same values, same rewards per action"""
+    if len(a) != len(b): return False
+    try:
+        if observe(a) != observe(b): return False
+        return all(sorted(x) == sorted(y) and all(norm_val(x[k]) == norm_val(y[k]) for k in x) for x, y in zip(a, b))
+    except Exception:
+        return False
+
+
+def steps_of(case):
+    """[(step, layout, batched)..] of the chain, plus Environments' implicit Finalize when the spec says it may follow"""
     chain = case["chain"]
     steps = [(st, case["groups"][d], case["batched"][d]) for d, st in enumerate(chain)]
     has_fin = any(st["f"] == "finalize" for st in chain)
-    if not has_fin and case["finOK"]:     # Environments' implicit Finalize (the spec says it may follow)
+    if not has_fin and case["finOK"]:
         steps.append((dict(f="finalize", x="", y="", n=0), case["finGroups"], case["batched"][-1]))
+    return steps, has_fin
+
+
+REUSE = ":reused-object:"
+
+
+def replay(case, rd, others=()):
+    """-> (bad, reuse).  bad = [] or [(where, clause, what)..] for the first step whose output differs, fresh filter objects.
+    reuse = [(signature, what, case)..]: with `others` (cases with the SAME chain, other environments) every filter OBJECT
+    is also applied to the others' current state and then to this case's input again (the spec's REUSE RULE)."""
+    from coba.pipes import Pipes
+    from coba.environments import Environments
+    from coba.primitives import Environment
+    reuse = []
+    bad = original(case, rd)
+    if bad: return bad, reuse
+    steps, has_fin = steps_of(case)
     cur = build(case, rd)
+    live = []                      # [case, its steps, its current state, its label]
+    for k, o in enumerate(others):
+        if not original(o, rd): live.append([o, steps_of(o)[0], build(o, rd), "second-environment"])
+    def attribute(o, f, clause, what, label):
+        # a difference on a reused object: if fresh objects give it too it is the other case's own finding, not one of reuse
+        fresh, _ = replay(o, rd)
+        if fresh: return [(":".join([w, c]), "%s: %s" % (describe(o, rd), t), o) for w, c, t in fresh]
+        return [(f + REUSE + label, "%s, filtered by the object that had filtered [%s] before: %s (%s)" % (describe(o, rd), describe(case, rd).split(" through ")[0], what, clause), o)]
     was_batched = False
-    for st, groups, batched in steps:
+    for d, (st, groups, batched) in enumerate(steps):
         try:
-            cur = list(mk_filter(st, was_batched, rd).filter(cur))
+            flt = mk_filter(st, was_batched, rd)
+            out = list(flt.filter(cur))
         except Exception as e:
-            return [(st["f"], "raises:" + type(e).__name__, "%s: %s" % (type(e).__name__, str(e)[:100]))]
-        bad = compare(case, cur, groups, batched)
-        if bad: return [(st["f"], c, w) for c, w in bad]
-        was_batched = batched
+            return [(st["f"], "raises:" + type(e).__name__, "%s: %s" % (type(e).__name__, str(e)[:100]))], reuse
+        bad = compare(case, out, groups, batched)
+        if bad: return [(st["f"], c, w) for c, w in bad], reuse
+        for item in list(live):            # the same object, the other environments
+            o, osteps, ocur, label = item
+            if d >= len(osteps): live.remove(item); continue
+            try:
+                oout = list(flt.filter(ocur)); obad = compare(o, oout, osteps[d][1], osteps[d][2])
+            except Exception as e:
+                oout = None; obad = [("raises:" + type(e).__name__, "%s: %s" % (type(e).__name__, str(e)[:100]))]
+            if obad:
+                reuse += attribute(o, st["f"], obad[0][0], obad[0][1], label); live.remove(item)
+            else: item[2] = oout
+        if others:                         # the same object, the first input again
+            try:
+                again = list(flt.filter(cur)); abad = compare(case, again, groups, batched)
+            except Exception as e:
+                again = None; abad = [("raises:" + type(e).__name__, "%s: %s" % (type(e).__name__, str(e)[:100]))]
+            if abad: reuse.append((st["f"] + REUSE + "first-environment-again", "%s, read again after other environments: %s (%s)" % (describe(case, rd), abad[0][1], abad[0][0]), case))
+            elif case["reuse"]["reread"] == "identical" and not same_output(out, again):
+                reuse.append((st["f"] + REUSE + "reread-differs", "%s: the second read of the same input differs from the first: %r / %r" % (describe(case, rd), [norm_val(x.get("actions")) for x in out][:1], [norm_val(x.get("actions")) for x in again][:1]), case))
+        cur = out; was_batched = batched
     # the same chain as one lazy pipeline
-    class Env(Environment):
-        def read(self): return iter(build(case, rd))
+    def env_of(c):
+        class Env(Environment):
+            def read(self): return iter(build(c, rd))
+        return Env()
     try:
         filters = []; wb = False
         for st, groups, batched in steps: filters.append(mk_filter(st, wb, rd)); wb = batched
-        out = list(Pipes.join(Env(), *filters).read())
+        out = list(Pipes.join(env_of(case), *filters).read())
     except Exception as e:
-        return [("pipeline", "raises:" + type(e).__name__, "%s: %s" % (type(e).__name__, str(e)[:100]))]
+        return [("pipeline", "raises:" + type(e).__name__, "%s: %s" % (type(e).__name__, str(e)[:100]))], reuse
     bad = compare(case, out, steps[-1][1], steps[-1][2])
-    if bad: return [("pipeline", c, w) for c, w in bad]
-    # and through the Environments shortcuts (an implicit BatchSafe(Finalize()) is appended when there is none)
+    if bad: return [("pipeline", c, w) for c, w in bad], reuse
+    # and through the Environments shortcuts (an implicit BatchSafe(Finalize()) is appended when there is none); one
+    # Environments object over this and the other environments shares each filter object among them
     if has_fin or case["finOK"]:
+        group = [case] + [o for o in others if (has_fin or o["finOK"]) and not original(o, rd)]
         try:
-            envs = Environments.from_custom(Env())
-            for st in chain: envs = shortcut(envs, st, rd)
-            out = list(envs[0].read())
+            envs = Environments.from_custom(*[env_of(c) for c in group])
+            for st in case["chain"]: envs = shortcut(envs, st, rd)
+            pipes = list(envs)
+            out = list(pipes[0].read())
         except Exception as e:
-            return [("shortcut", "raises:" + type(e).__name__, "%s: %s" % (type(e).__name__, str(e)[:100]))]
+            return [("shortcut", "raises:" + type(e).__name__, "%s: %s" % (type(e).__name__, str(e)[:100]))], reuse
         bad = compare(case, out, steps[-1][1], steps[-1][2])
-        if bad: return [("shortcut", c, w) for c, w in bad]
-    return []
+        if bad: return [("shortcut", c, w) for c, w in bad], reuse
+        for o, pipe in zip(group[1:], pipes[1:]):
+            osteps = steps_of(o)[0]
+            try: obad = compare(o, list(pipe.read()), osteps[-1][1], osteps[-1][2])
+            except Exception as e: obad = [("raises:" + type(e).__name__, "%s: %s" % (type(e).__name__, str(e)[:100]))]
+            if obad: reuse += attribute(o, "shortcut", obad[0][0], obad[0][1], "second-environment")
+        if len(group) > 1:
+            try: again = list(pipes[0].read()); abad = compare(case, again, steps[-1][1], steps[-1][2])
+            except Exception as e: again = None; abad = [("raises:" + type(e).__name__, "%s: %s" % (type(e).__name__, str(e)[:100]))]
+            if abad: reuse.append(("shortcut" + REUSE + "first-environment-again", "%s, read again after other environments: %s (%s)" % (describe(case, rd), abad[0][1], abad[0][0]), case))
+            elif not same_output(out, again): reuse.append(("shortcut" + REUSE + "reread-differs", "%s: the second read of the same pipeline differs from the first" % describe(case, rd), case))
+    return [], reuse
 
 
 # ---- TLC chunks ------------------------------------------------------------------------------------------------
@@ -366,11 +442,11 @@ ALL_SHAPES = ("scalar", "string", "cat", "dense", "densecat", "nested", "sparse"
 def chunks(ctx):
     """(name, MaxLen, levels, shapes, flavours, envs, check Idempotent)"""
     if ctx.quick:
-        return [("len1", 1, ("full", "off", "off"), ALL_SHAPES, ("igl", "logged"), ("diff",), True),
-                ("len2", 2, ("tiny", "tiny", "off"), ("scalar", "cat", "densecat", "nested", "sparsecat", "sparsepart"), ("iglmix", "logged"), ("same",), False)]
-    return [("len1", 1, ("full", "off", "off"), ALL_SHAPES, ("sim", "igl", "iglmix", "logged"), ("one", "same", "diff", "samediff"), True),
-            ("len2", 2, ("lite", "lite", "off"), ALL_SHAPES, ("igl", "iglmix", "logged"), ("same", "diff"), False),
-            ("len3", 3, ("tiny", "tiny", "tiny"), ALL_SHAPES, ("iglmix", "logged"), ("diff",), False)]
+        return [("len1", 1, ("full", "off", "off"), ALL_SHAPES, ("igl", "logged"), ("diff", "rev"), True),
+                ("len2", 2, ("tiny", "tiny", "off"), ("scalar", "cat", "densecat", "nested", "sparsecat", "sparsepart"), ("iglmix", "logged"), ("same", "rev"), False)]
+    return [("len1", 1, ("full", "off", "off"), ALL_SHAPES, ("sim", "igl", "iglmix", "logged"), ("one", "same", "diff", "samediff", "rev"), True),
+            ("len2", 2, ("lite", "lite", "off"), ALL_SHAPES, ("igl", "iglmix", "logged"), ("same", "diff", "rev"), False),
+            ("len3", 3, ("tiny", "tiny", "tiny"), ALL_SHAPES, ("iglmix", "logged"), ("diff", "rev"), False)]
 
 
 def tla_set(xs): return "{" + ", ".join('"%s"' % x for x in xs) + "}"
@@ -400,7 +476,7 @@ def run_chunk(ctx, name, maxlen, levels, shapes, flavours, envs, idem):
 
 def qualifier(case, rd, where, clause):
     """a minimal set of rendering features that, added to the plain rendering, makes (where, clause) fail (greedy reduction)"""
-    def fails(r): return any(w == where and c == clause for w, c, _ in replay(case, r))
+    def fails(r): return any(w == where and c == clause for w, c, _ in replay(case, r)[0])
     cur = dict(rd)
     for f in sorted(rd):
         if cur[f] == PLAIN[f]: continue
@@ -410,45 +486,84 @@ def qualifier(case, rd, where, clause):
     return ",".join("%s=%s" % (f, name(cur[f])) for f in sorted(cur) if cur[f] != PLAIN[f])
 
 
-def replay_both(arg):
-    c, seed = arg
-    rd = rendering(zlib.crc32(c["key"].encode()) + seed)      # the same for all reward kinds of one (environment, chain)
-    return rd, replay(c, PLAIN), replay(c, rd)
+_CASES = []          # the chunk's cases, inherited by the forked workers
+_OTHERS = {}         # index of a case -> indexes of the other environments its filter objects are reused on
 
 
-def replay_all(cases, seed):
-    """both renderings of every case, in order; the work is spread over forked workers (replay is a pure function of the case)"""
+def choose_others(cases, both=True):
+    """For every primary case two other cases of the chunk with the SAME chain (so the same filter objects apply): one of
+    another action shape (another flavour / reward kind where there is one) and one of the same shape whose environment starts
+    with the other action set (env `rev`, another reward kind).  Deterministic in the case."""
+    by_chain = {}
+    for i, c in enumerate(cases): by_chain.setdefault(json.dumps(c["chain"], sort_keys=True), []).append(i)
+    others = {}
+    for idxs in by_chain.values():
+        for i in idxs:
+            c = cases[i]
+            if c["env"] == "rev": continue
+            h = zlib.crc32((c["key"] + "|" + c["rk"]).encode())
+            pick_ = []
+            for pools in (([j for j in idxs if cases[j]["shape"] != c["shape"] and cases[j]["fl"] != c["fl"] and cases[j]["rk"] != c["rk"]],
+                           [j for j in idxs if cases[j]["shape"] != c["shape"]]),
+                          ([j for j in idxs if cases[j]["shape"] == c["shape"] and cases[j]["env"] == "rev" and cases[j]["rk"] != c["rk"]],
+                           [j for j in idxs if cases[j]["shape"] == c["shape"] and cases[j]["env"] == "rev"])):
+                pool = next((p for p in pools if p), None)
+                if pool: pick_.append(pool[h % len(pool)])
+            others[i] = pick_ if both or len(pick_) < 2 else [pick_[(h >> 8) % 2]]     # quick: one of the two, alternating
+    return others
+
+
+def replay_both(i):
+    c = _CASES[i]
+    rd = rendering(zlib.crc32(c["key"].encode()) + _SEED)      # the same for all reward kinds of one (environment, chain)
+    d0, reuse = replay(c, PLAIN, [_CASES[j] for j in _OTHERS[i]])
+    d1, _ = replay(c, rd)
+    return rd, d0, d1, [(sig, what, o["key"] + "|" + o["rk"]) for sig, what, o in reuse]
+
+
+def replay_all(cases, seed, both):
+    """both renderings of every primary case, in order (the `rev` environments only serve as second environments); the work
+    is spread over forked workers (replay is a pure function of the case and of the others chosen for it)"""
     import multiprocessing, os
+    global _CASES, _OTHERS, _SEED
+    _CASES = cases; _OTHERS = choose_others(cases, both); _SEED = seed
+    todo = sorted(_OTHERS)
     n = min(16, os.cpu_count() or 1)
-    args = [(c, seed) for c in cases]
-    if n < 2 or len(cases) < 2000: return [replay_both(a) for a in args]
+    if n < 2 or len(todo) < 2000: return todo, [replay_both(i) for i in todo]
     with multiprocessing.get_context("fork").Pool(n) as pool:
-        return pool.map(replay_both, args, chunksize=250)
+        return todo, pool.map(replay_both, todo, chunksize=100)
 
 
 def run(ctx):
     import warnings
     warnings.filterwarnings("ignore")
     import coba.environments, coba.pipes      # imported before the workers are forked
-    total = 0; ncase = 0; by_depth = {}; by_shape = {}; steps_checked = 0; excluded = 0
+    total = 0; ncase = 0; by_depth = {}; by_shape = {}; steps_checked = 0; excluded = 0; second = 0
     for chunk in chunks(ctx):
         cases = run_chunk(ctx, *chunk)
         bad_of = {}              # (key, rk, which rendering) -> {(where, clause)}
         pending = []
-        results = replay_all(cases, ctx.seed); ncase_in_chunk = 0
-        for c in cases:
+        todo, results = replay_all(cases, ctx.seed, not ctx.quick)
+        reused = {}
+        for i, (rd, d0, d1, reuse) in zip(todo, results):
+            c = cases[i]
             ncase += 1
             ctx.case(c["key"] + "|" + c["rk"])
             by_depth[len(c["chain"])] = by_depth.get(len(c["chain"]), 0) + 1
             by_shape[c["shape"]] = by_shape.get(c["shape"], 0) + 1
-            steps_checked += 2 * (len(c["chain"]) + 1)
+            napp = len(c["chain"]) + 1
+            steps_checked += napp * (3 + len(_OTHERS[i]))
             if not c["finOK"]: excluded += 1
-            rd, d0, d1 = results[ncase_in_chunk]; ncase_in_chunk += 1; total += 2
+            total += 2 + 2 * (1 + len(_OTHERS[i])); second += len(_OTHERS[i])
             bad_of[(c["key"], c["rk"], 0)] = {(w, cl) for w, cl, _ in d0}
             bad_of[(c["key"], c["rk"], 1)] = {(w, cl) for w, cl, _ in d1}
             if d0 or d1: pending.append((c, rd, d0, d1))
+            for sig, what, okey in reuse: reused.setdefault((sig, okey), what)
             if ncase % 997 == 1:
-                ctx.sample(dict(case=describe(c, rd), demanded=dict(rewards=c["expR"], feedbacks=c["expF"], logged_member=c["M"], layout=c["groups"][-1])), limit=5)
+                ctx.sample(dict(case=describe(c, rd), same_filter_objects_then_applied_to=[describe(cases[j], PLAIN).split(" through ")[0] for j in _OTHERS[i]],
+                                demanded=dict(rewards=c["expR"], feedbacks=c["expF"], logged_member=c["M"], layout=c["groups"][-1])), limit=5)
+        for (sig, okey), what in sorted(reused.items()):
+            ctx.violation(sig, what, dict(case_key=okey, rendering=PLAIN))
         def table_qual(c, which, where, clause):
             # the same environment and chain with the table written in the interaction's own order is fine: the order is what matters
             if c["rk"] in ("discrev", "discpart") and (where, clause) not in bad_of.get((c["key"], "disc", which), {(where, clause)}):
@@ -473,6 +588,7 @@ def run(ctx):
     ctx.extra["cases_by_chain_length"] = by_depth
     ctx.extra["cases_by_action_shape"] = by_shape
     ctx.extra["filter_outputs_compared"] = steps_checked
+    ctx.extra["second_environments_filtered_by_reused_objects"] = second
     ctx.extra["cases_whose_implicit_finalize_is_outside_the_domain"] = excluded
     ctx.assumptions += [
         "a chain is in the domain when every step is an injective relabelling of each interaction's actions (decided by the spec's guard on its abstract values: chains that merge two actions - trailing zeros under Sparsify, explicit zeros under Densify / Flatten of a mapping - are not generated); all actions of an environment have the same form (filters decide by the first interaction / first action)",
